@@ -156,3 +156,22 @@ def _make_plan(xmin, xmax, R, C, stock, mode, vmax, min_transfer):
         res["reported-concentrations"] = False
         res["reported-totals"] = False
     return res
+
+
+def _make_randomizer(original_shape, random_seed, mode):
+    """builds a real WellRandomizer (twice: same seed must give the same assignment) and evaluates the constructor contract"""
+    from robotools import WellRandomizer
+
+    R, C = original_shape
+    letters = "ABCDEFGHIJKLMNOPQRSTUVWXYZ"
+    grid = [f"{letters[r]}{c + 1:02d}" for r in range(R) for c in range(C)]
+    a = WellRandomizer(original_shape, random_seed, mode=mode)
+    b = WellRandomizer(original_shape, random_seed, mode=mode)
+    lk, rv = dict(a.lookup), dict(a.lookup_reverse)
+    ok = sorted(lk) == sorted(grid) and sorted(lk.values()) == sorted(grid) and len(rv) == len(grid) and all(rv.get(lk[w]) == w for w in grid)
+    if mode == "row":
+        ok = ok and all(lk[w][0] == w[0] for w in grid)
+    if mode == "column":
+        ok = ok and all(lk[w][1:] == w[1:] for w in grid)
+    ok = ok and dict(b.lookup) == lk and dict(b.lookup_reverse) == rv
+    return {"well-formed": bool(ok), "attributes": tuple(a.original_shape) == tuple(original_shape) and a.random_seed == random_seed}
